@@ -17,13 +17,79 @@ MANIFEST = {
             'merge_knn_results = collect from an id-keyed map ≺ sort_by(distance) ≺ truncate(k), hot entries inserted before cold ones '
             'only fill absent keys; each search entry point returns only cache hits, merge results or sorted+truncated partial results; '
             'hot candidates pass the canonical filter; the hot scan leaves its loop early only under the cancellation flag. Distances, '
-            'float tolerance and the recency inequality are not decided.',
+            'float tolerance and the recency inequality are not decided. One distance scale per metric across index, recent-write scan and query-cache invalidation (unit analysis).',
     'design_ref': 'DESIGN.md §4.6',
     'note': 'Trusted base: rustc MIR, ordered-effect chains, origin tracing.',
     'technique': 'dominance / ordered chains / origin whitelists over result construction sites on MIR',
 }
 
 EXPLANATION = 'FLOW/ORD/GUARD rules of DESIGN §4.6 on hnsw_backend.rs, tiered_engine.rs and hot_tier.rs.'
+
+
+def distance_scales(ctx, prog, rid):
+    """unit analysis of the per-metric distance of the three tiers (C06.R5, shared with C07.R6)."""
+    # ------------------------------------------------------------------ R5 one distance scale across the tiers
+    ctx.rule(rid, 'one distance scale per metric across the tiers (unit analysis, kvstatic/scale.py): the distance the index returns to the user, the '
+                       'distance the recent-write scan computes for the merge, and the distance the query cache compares with cached results when an insert '
+                       'arrives are the same quantity — Euclidean distance (not its square) under Euclidean, 1 − similarity under Cosine / InnerProduct; the '
+                       'Euclidean pre-filter compares squared with squared')
+    from kvstatic import scale
+    sc = scale.Scale(prog)
+    want = {'Euclidean': 'L2', 'Cosine': 'DIST1', 'InnerProduct': 'DIST1'}
+    dm = prog.adts.get('kyrodb_engine::config::DistanceMetric') or next((a for k, a in prog.adts.items() if k.endswith('::DistanceMetric')), None)
+    variants = [v['name'] for v in dm['variants']] if dm else []
+    ctx.inst(rid, 'DistanceMetric', 'every metric variant has an expected scale', sorted(variants) == sorted(want), 'variants: %s' % variants)
+    fm = ctx.body(rid, 'MetricDistanceKernel::for_metric')
+    kd = ctx.body(rid, 'MetricDistanceKernel::distance')
+    mu = ctx.body(rid, 'ann_backend::metric_distance_to_user')
+    qd = ctx.body(rid, 'QueryHashCache::distance')
+    pf = ctx.body(rid, 'QueryHashCache::insert_can_affect_cached_boundary')
+    hk2 = ctx.body(rid, 'HotTier::knn_search_with_cancel')
+    for V in variants:
+        if None in (fm, kd, mu, qd, hk2):
+            break
+        live, n = scale.specialised_blocks(fm, 'DistanceMetric', V)
+        r = flow.render(flow.Origin(fm, live=live).of_local(0))
+        m = re.match(r'^ann_backend::MetricDistanceKernel::(\w+)\{.*→(ResolvedF32Kernels\.\w+)\}$', r)
+        if not m or n != 1:
+            ctx.inst(rid, _short(fm), '%s: kernel selection recognised' % V, False, 'for_metric under %s builds %s' % (V, r[:100]))
+            continue
+        K, field = m.group(1), m.group(2)
+        kk = scale.KERNEL_FIELDS.get(field, '?')
+        raw = sc.ret_kind(kd, K, {'payload:' + K: kk}, enum='MetricDistanceKernel')
+        user = sc.ret_kind(mu, V, {'raw_distance': raw})
+        ctx.inst(rid, 'ann_backend index', '%s: the index reports %s' % (V, want.get(V)), user == want.get(V),
+                 'kernel %s (%s) → internal %s → metric_distance_to_user → %s' % (field, kk, raw, user))
+        # recent-write scan: the variable the candidates are ranked by
+        live, n = scale.specialised_blocks(hk2, 'DistanceMetric', V)
+        ho = flow.Origin(hk2, live=live)
+        dl = hk2.var_local('distance')
+        hot = sc.kind(ho.of_local(dl[0]), hk2, V, {}) if len(dl) == 1 and n >= 1 else '?'
+        ctx.inst(rid, _short(hk2), '%s: the recent-write scan ranks by the scale the index reports' % V, hot == user and hot == want.get(V), 'scan distance: %s; index: %s' % (hot, user))
+        qc = sc.ret_kind(qd, V)
+        ctx.inst(rid, _short(qd), '%s: insert-time invalidation compares the scale of the cached distances' % V, qc == user and qc == want.get(V),
+                 'QueryHashCache::distance: %s; cached results carry the index scale: %s' % (qc, user))
+    if pf is not None:
+        r = sc.ret_kind(pf, 'Euclidean', {'worst_cached_distance': want['Euclidean']})
+        ctx.inst(rid, _short(pf), 'Euclidean pre-filter compares squared with squared', r == 'CMP(L2SQ,L2SQ)', 'decision = %s with the cached boundary as %s' % (r, want['Euclidean']))
+    # the invalidation decision compares QueryHashCache::distance with the largest cached result distance
+    ifi = ctx.body(rid, 'QueryHashCache::invalidate_for_insert')
+    if ifi is not None:
+        ov5 = flow.Origin(ifi, stop_at_vars=True)
+        cmpb = [(i, p) for i, blk in enumerate(ifi.blocks) if blk['t']['k'] == 'switch' and i in ifi.live_blocks() for tg, p in flow.switch_edge_predicates(ifi, i, ov5)
+                if re.search(r'var:candidate_distance', p) and re.search(r'var:worst_cached_distance', p)]
+        cd = ifi.var_local('candidate_distance')
+        wd = ifi.var_local('worst_cached_distance')
+        of5 = flow.Origin(ifi)
+        cdo = flow.render(of5.of_local(cd[0])) if cd else ''
+        wdo = flow.render(of5.of_local(wd[0])) if wd else ''
+        ctx.inst(rid, _short(ifi), 'candidate distance = QueryHashCache::distance(query, insert, metric); boundary = max of the cached result distances',
+                 bool(cmpb) and cdo.startswith('QueryHashCache::distance(') and 'arg:distance' in cdo and 'SearchResult.distance' in wdo or (bool(cmpb) and cdo.startswith('QueryHashCache::distance(') and 'fold' in wdo),
+                 'candidate = %s; boundary = %s' % (cdo[:80], wdo[:100]))
+
+
+def _short(b):
+    return b.short
 
 
 def run(ctx, prog):
@@ -199,4 +265,5 @@ def run(ctx, prog):
         fin = [(i, tg) for i, blk in enumerate(hk.blocks) if blk['t']['k'] == 'switch' for tg, p in flow.switch_edge_predicates(hk, i, hv) if re.match(r'^!bool\[f32::is_finite\(var:distance\)\]$', p)]
         okf = bool(fin) and all(h.bb in (hk.reach([tg]) | {tg}) for _, tg in fin)
         ctx.inst('C06.R4', hk.short, 'a non-finite distance skips the document and continues the scan', okf, 'skip edges: %s' % fin[:1])
+    distance_scales(ctx, prog, 'C06.R5')
     ctx.stat('functions_analysed', len(set(i['key'].split(' | ')[1] for i in ctx.instances)))
